@@ -42,9 +42,20 @@ def read_bytes(path) -> bytes:
         return f.read()
 
 
-def write_bytes(path, b: bytes):
+def write_bytes(path, b: bytes, mtime_delta=0.0):
     with _ropen(path, "wb") as f:
         f.write(b)
+    stamp(path, mtime_delta)
+
+
+def stamp(path, delta=0.0):
+    """File times are nondeterminism too: every file the harness or a simulated process
+    writes gets its mtime from the simulated clock (plus a delta for back-dated copies)."""
+    t = CTX.clock.timestamp() + delta
+    try:
+        os.utime(path, (t, t))
+    except OSError:
+        pass
 
 
 def list_tree(root):
@@ -168,13 +179,13 @@ class World:
             REAL["os.mkdir"](cur)
         return True
 
-    def op_write(self, path, content):
+    def op_write(self, path, content, mtime_delta=0.0):
         full = self.p(path)
         if os.path.isdir(full):
             return {"noop": "is_dir"}
         if not self._parents_ok(path, True):
             return {"noop": "parent_is_file"}
-        write_bytes(full, content_bytes(content))
+        write_bytes(full, content_bytes(content), mtime_delta)
         return {}
 
     def op_delete(self, path):
@@ -187,8 +198,11 @@ class World:
             return {"noop": "missing"}
         return {}
 
-    def op_rename(self, src, dst):
+    def op_rename(self, src, dst, overwrite=False):
         a, b = self.p(src), self.p(dst)
+        if overwrite and os.path.isfile(a) and os.path.isfile(b) and a != b:
+            REAL["os.replace"](a, b)      # mv old new: the content arrives with its old mtime
+            return {"replaced": True}
         if not os.path.lexists(a) or os.path.lexists(b):
             return {"noop": "src_missing_or_dst_exists"}
         if (dst + "/").startswith(src + "/"):
@@ -205,10 +219,16 @@ class World:
         write_bytes(full, read_bytes(full))
         return {}
 
-    def op_swap(self, a, b):
+    def op_swap(self, a, b, by_rename=False):
         fa, fb = self.p(a), self.p(b)
         if not (os.path.isfile(fa) and os.path.isfile(fb)):
             return {"noop": "missing"}
+        if by_rename:
+            tmp = fa + ".swp~"            # three renames: each content keeps its own mtime
+            REAL["os.rename"](fa, tmp)
+            REAL["os.rename"](fb, fa)
+            REAL["os.rename"](tmp, fb)
+            return {}
         ba, bb = read_bytes(fa), read_bytes(fb)
         write_bytes(fa, bb)
         write_bytes(fb, ba)
@@ -402,6 +422,11 @@ class World:
             return self.outside, os.path.join("..", name)
         if sp == "trailing":
             return self.base, name + os.sep
+        if sp in ("symlink", "symlink_abs"):
+            link = os.path.join(self.base, "link")
+            if not os.path.islink(link):
+                os.symlink(self.root, link)
+            return (self.base, "link") if sp == "symlink" else (self.outside, link)
         raise KeyError(sp)
 
     def run_process(self, fn, nonce, cwd, fault=None, record_io=False, set_policy="mixed",
@@ -488,6 +513,12 @@ class World:
                     os.environ[k] = v
             for h in list(root_logger.handlers):
                 root_logger.removeHandler(h)
+        # whatever the process wrote (the cache directory) is stamped with the simulated time
+        cd = self.cache_dir
+        if os.path.isdir(cd):
+            stamp(cd)
+            for n in os.listdir(cd):
+                stamp(os.path.join(cd, n))
         self.steps_total += steps
         obs["steps"] = steps
         obs["stdout"] = out.getvalue()
